@@ -171,6 +171,8 @@ def rule_r3(p, res):
         k = upd[0]
         idx = "e" if "diagonal" not in iname else "v"
         r.check([norm(a) for a in k.args] == ["edge_data", "m", "covariances[%s]" % idx, jf.params[3]], jf, k, "%s: the update must receive (block data, block mean, stored block covariance, old count) (found %s)" % (iname, [norm(a) for a in k.args]))
+        r.check(kwarg(k, "bias") is not None and norm(kwarg(k, "bias")) == "bias", jf, k, "%s: the covariance update must use the model's bias convention (bias=bias); otherwise the incremental "
+                "precision differs from the batch one for bias=1" % iname)
         st = stmt_of(k)
         r.check(isinstance(st, ast.Assign) and norm(st.targets[0]) == "(_, covariances[%s])" % idx, jf, st, "%s: the updated covariance must be stored back for the next increment" % iname)
         invs = [x for x in calls_in(jf.node) if (dotted(x.func) or "") == "_covariance_matrix_inverse"]
@@ -219,6 +221,14 @@ def rule_r4(p, res):
     d = Defs(ip.node)
     s = norm(ip.node)
     r.check("n_a *= f" in s and norm(d.single("n")) == "n_a + n_b", ip, ip.node, "ipca: merged count = forgetting-weighted old count + new count")
+    # the mean-aware update is used exactly when the old model has a mean that is not identically zero
+    gq = cfgmod.build(ip.node)
+    mb = [n_ for n_ in walk_own(ip.node) if isinstance(n_, ast.Assign) and norm(n_.targets[0]) == "m_b"]
+    need(len(mb) == 1, "C11.R4: the new-batch mean of ipca was not found")
+    gs = [(norm(t), pol) for t, pol in gq.guards(mb[0])]
+    accepted = ("m_a is not None and (not np.all(m_a == 0))", "m_a is not None and np.any(m_a != 0)", "m_a is not None and np.any(m_a)", "m_a is not None and (not np.allclose(m_a, 0))")
+    r.check(len(gs) == 1 and gs[0][1] is True and gs[0][0] in accepted, ip, mb[0], "ipca must take the mean-aware update whenever the old mean is not identically zero; the guard is %s "
+            "(a mean with *some* zero entries is still a mean)" % gs, {"centred_update_guard": gs})
     r.check("m = n_a / n * m_a + n_b / n * m_b" in s, ip, ip.node, "ipca: merged mean is the count-weighted mean")
     r.check("np.sqrt(n_a * n_b / n) * (m_b - m_a)" in s, ip, ip.node, "ipca: the mean-shift pseudo-sample is sqrt(n_a n_b / n) (m_b - m_a)")
     st = [n_ for n_ in walk_own(ip.node) if isinstance(n_, ast.Assign) and norm(n_.targets[0]) == "s_a"]
@@ -242,5 +252,7 @@ WITNESSES = [
     Witness("C11.W7", "menpo/model/gmrf.py", "_increment_sparse_diagonal_precision", "_, covariances[v] = _increment_multivariate_gaussian_cov(edge_data, m, covariances[v], n, bias=bias)",
             "_, new_cov = _increment_multivariate_gaussian_cov(edge_data, m, covariances[v], n, bias=bias)", rule="C11.R3", construct="_increment_sparse_diagonal_precision"),
     Witness("C11.W8", "menpo/model/gmrf.py", "_increment_multivariate_gaussian_mean", "(n * m + np.sum(X, axis=0)) / (n + new_n)", "(n * m + np.sum(X, axis=0)) / (n + 1)", rule="C11.R4", construct="_increment_multivariate_gaussian_mean"),
+    Witness("C11.W9", "menpo/math/decomposition.py", "ipca", "if m_a is not None and (not np.all(m_a == 0)):", "if m_a is not None and np.all(m_a != 0):", rule="C11.R4", construct="ipca", note="seeded change C11-A"),
+    Witness("C11.W10", "menpo/model/gmrf.py", "_increment_dense_precision", "covariances[e], n, bias=bias)", "covariances[e], n)", rule="C11.R3", construct="_increment_dense_precision", note="seeded change C11-B"),
     Witness("C11.T1", "menpo/model/pca.py", "PCAVectorModel.increment", "self._mean = m_vector\n    self._components = e_vectors\n    self._eigenvalues = e_values", "self._components = e_vectors\n    self._eigenvalues = e_values\n    self._mean = m_vector", kind="T"),
 ]
